@@ -18,10 +18,10 @@ def groups(tier):
                 clause='a nonce compute_handshake_pow reports was accepted by handshake_pow_valid for the same ids, key and difficulty')]
     G += [Group('store.clz', 'pow_store', 'C19/store.c', entry='h_clz', unwind=257, kind='constant-unwind', bound='<=32 bytes x 8 bits',
                 clause='StoreProof count_leading_zero_bits == clz for every digest'),
-          Group('store.valid', 'pow_store', 'C19/store.c', entry='h_store', replace=SHA, unwind=257, kind='constant-unwind',
+          Group('store.valid', 'pow_store_v', 'C19/store.c', entry='h_store', defines=['UNIT_V'], replace=SHA, unwind=257, kind='constant-unwind',
                 bound='fixed-width encoders; filename length symbolic and unbounded',
                 clause='store_pow_valid accepts iff clz(SHA256(chunk id|be64 size|be32 len|filename|be64 nonce)) >= min(difficulty,24)'),
-          Group('store.solver', 'pow_store', 'C19/store.c', entry='h_solver', enforce='security__compute_store_pow', loop_contracts=True,
+          Group('store.solver', 'pow_store_v', 'C19/store.c', entry='h_solver', defines=['UNIT_V'], enforce='security__compute_store_pow', loop_contracts=True,
                 replace=SHA + ['security__store_pow_valid'], unwind=34, kind='unbounded', backend=['sat', 'cadical'],
                 clause='every nonce compute_store_pow returns was accepted by store_pow_valid for the same input and effective difficulty (any attempt budget; PRNG opaque)'),
           Group('cli.clz', 'pow_cli', 'C19/cli.c', entry='h_clz', unwind=257, kind='constant-unwind', bound='<=32 bytes x 8 bits',
